@@ -264,6 +264,7 @@ func (conn *Connection) ReadServerMessages() ([]interface{}, error) {
 			return nil, fmt.Errorf("attempt to read a server message from a closed websocket connection")
 		}
 		msgs = append(msgs, serverMsg.Serialize(conn.protocolVersion))
+		verifhook.Gate("ws.poll.first")
 		for {
 			select {
 			case serverMsg, ok := <-conn.serverMessages:
